@@ -42,7 +42,8 @@ def write_flat(d, A, parts, offset=0, ext='.dat', stem='rec'):
     paths = []
     i = 0
     for k, p in enumerate(parts):
-        path = Path(d) / ('%s%d%s' % (stem, k, ext))
+        # t9, t10, t11 ...: lexicographic order differs from the order in which the parts are given
+        path = Path(d) / ('%s_t%d%s' % (stem, 9 + k, ext))
         with open(path, 'wb') as f:
             f.write(bytes((7 * j + 1) % 256 for j in range(offset)))
             f.write(np.ascontiguousarray(A[i:i + p]).tobytes())
